@@ -162,13 +162,60 @@ Proof.
   destruct H as [H|H]; apply Z.eqb_eq in H; subst; auto.
 Qed.
 
-Local Arguments exec_aug : simpl never.
-Local Arguments conv : simpl never.
-Local Arguments preemph_spec : simpl never.
-Local Arguments dither_spec : simpl never.
-Local Arguments g_draw : simpl never.
+Lemma exec_list_app : forall c ip ax p q (s : state V RS),
+  exec_list O G c ip ax (p ++ q) s = exec_list O G c ip ax q (exec_list O G c ip ax p s).
+Proof. induction p; intros; cbn [app exec_list]; auto. Qed.
+
+(* The working state after the prologue of either [apply]: the variable
+   [signal] refers to the input array itself (in_place on float64) or to a
+   fresh float64 copy; [w] is the float64 working data. *)
+Definition st_work (d : dtype) (x w : list V) (r : RS) (wn b : bool) : state V RS :=
+  if b
+  then {| s_heap := [Build_arr F64 w]; s_sig := 0%nat; s_saved := d; s_rng := r;
+          s_ret := None; s_err := false; s_warn := wn |}
+  else {| s_heap := [Build_arr d x; Build_arr F64 w]; s_sig := 1%nat; s_saved := d; s_rng := r;
+          s_ret := None; s_err := false; s_warn := wn |}.
+
+Lemma in_place_f64 : forall ip d, ip && dtype_eqb d F64 = true -> d = F64.
+Proof. intros ip d H. apply andb_true_iff in H. destruct H as [_ H]. now destruct d. Qed.
+
+(* what the final  return signal.astype(signal_dtype, copy=False)  yields *)
+Lemma epilogue : forall c ip ax p d x w r wn b, (b = true -> d = F64) ->
+  p = [SReturnAstypeSaved] \/
+  (axis_ok ax = true /\ p = [SIf (BNot (BAxisIn [Some (-1); None])) [SMoveAxis false] []; SReturnAstypeSaved]) ->
+  let s := exec_list O G c ip ax p (st_work d x w r wn b) in
+  s_err s = false /\ s_rng s = r /\ s_warn s = wn /\
+  out_arr s = Some (Build_arr d (conv O F64 d w)) /\
+  (if b then aliases_input s = true /\ input_after s = Build_arr d (conv O F64 d w)
+   else aliases_input s = false /\ input_after s = Build_arr d x).
+Proof.
+  intros c ip ax p d x w r wn b Hb [->|[Hax ->]]; destruct b; try rewrite (Hb eq_refl).
+  - cbv zeta; repeat split.
+  - destruct d; cbv zeta; repeat split.
+  - destruct (axis_ok_cases ax Hax) as [->|[->| ->]]; cbv zeta; repeat split.
+  - destruct (axis_ok_cases ax Hax) as [->|[->| ->]]; destruct d; cbv zeta; repeat split.
+Qed.
 
 (* ---- Preemphasize.apply, every dtype / in_place / axis a 1-D signal accepts *)
+Lemma preemph_prologue : forall c ip ax d x r, axis_ok ax = true ->
+  exec_list O G c ip ax (firstn 4 preemph_prog) (init (Build_arr d x) r) =
+  st_work d x (conv O d F64 x) r (negb (opt_eqb ax None)) (ip && dtype_eqb d F64).
+Proof.
+  intros c ip ax d x r Hax.
+  destruct (axis_ok_cases ax Hax) as [->|[->| ->]]; destruct ip, d; reflexivity.
+Qed.
+
+Lemma preemph_body : forall c ip ax d x w r wn b, (b = true -> d = F64) ->
+  exec O G c ip ax (nth 4 preemph_prog SWarn) (st_work d x w r wn b) =
+  st_work d x (preemph_spec O c w) r wn b.
+Proof.
+  intros c ip ax d x w r wn b Hb. destruct b.
+  - rewrite (Hb eq_refl). cbn [nth preemph_prog]. unfold st_work.
+    cbn [exec live s_ret s_err negb]. rewrite aug_preemph_f64 by reflexivity. reflexivity.
+  - cbn [nth preemph_prog]. unfold st_work.
+    cbn [exec live s_ret s_err negb]. rewrite aug_preemph_f64 by reflexivity. reflexivity.
+Qed.
+
 Lemma preemph_run_all : forall c ip ax d x r, axis_ok ax = true ->
   let s := run O G c ip ax preemph_prog (Build_arr d x) r in
   let y := via_f64 O d (preemph_spec O c) x in
@@ -178,13 +225,33 @@ Lemma preemph_run_all : forall c ip ax d x r, axis_ok ax = true ->
    then aliases_input s = true /\ input_after s = Build_arr d y
    else aliases_input s = false /\ input_after s = Build_arr d x).
 Proof.
-  intros c ip ax d x r Hax.
-  destruct (axis_ok_cases ax Hax) as [->|[->| ->]]; destruct ip, d;
-    unfold run, preemph_prog, via_f64; cbv -[exec_aug conv preemph_spec dither_spec g_draw];
-    rewrite aug_preemph_f64 by reflexivity; cbv -[exec_aug conv preemph_spec dither_spec g_draw]; rewrite ?conv_same; repeat split.
+  intros c ip ax d x r Hax. unfold run, via_f64.
+  change preemph_prog with (firstn 4 preemph_prog ++ [nth 4 preemph_prog SWarn] ++ skipn 5 preemph_prog).
+  rewrite !exec_list_app, preemph_prologue by assumption.
+  cbn [exec_list]. rewrite preemph_body by apply in_place_f64.
+  apply epilogue; [apply in_place_f64|right; split; [assumption|reflexivity]].
 Qed.
 
 (* ---- Dither.apply *)
+Lemma dither_prologue : forall c ip ax d x r, axis_ok ax = true ->
+  exec_list O G c ip ax (firstn 3 dither_prog) (init (Build_arr d x) r) =
+  st_work d x (conv O d F64 x) r (negb (opt_eqb ax None)) (ip && dtype_eqb d F64).
+Proof.
+  intros c ip ax d x r Hax.
+  destruct (axis_ok_cases ax Hax) as [->|[->| ->]]; destruct ip, d; reflexivity.
+Qed.
+
+Lemma dither_body : forall c ip ax d x w r wn b, (b = true -> d = F64) -> axis_ok ax = true ->
+  exec O G c ip ax (nth 3 dither_prog SWarn) (st_work d x w r wn b) =
+  st_work d x (dither_spec O c w (g_draw G r (length w))) (g_adv G r (length w)) wn b.
+Proof.
+  intros c ip ax d x w r wn b Hb Hax.
+  destruct (axis_ok_cases ax Hax) as [->|[->| ->]]; destruct b; try rewrite (Hb eq_refl);
+    cbn [nth dither_prog]; unfold st_work;
+    cbn [exec live s_ret s_err negb beval opt_eqb orb Z.eqb Pos.eqb];
+    rewrite aug_dither_f64 by reflexivity; reflexivity.
+Qed.
+
 Lemma dither_run_all : forall c ip ax d x r, axis_ok ax = true ->
   let s := run O G c ip ax dither_prog (Build_arr d x) r in
   let g := g_draw G r (length x) in
@@ -195,10 +262,12 @@ Lemma dither_run_all : forall c ip ax d x r, axis_ok ax = true ->
    then aliases_input s = true /\ input_after s = Build_arr d y
    else aliases_input s = false /\ input_after s = Build_arr d x).
 Proof.
-  intros c ip ax d x r Hax.
-  destruct (axis_ok_cases ax Hax) as [->|[->| ->]]; destruct ip, d;
-    unfold run, dither_prog, via_f64; cbv -[exec_aug conv preemph_spec dither_spec g_draw g_adv length];
-    rewrite aug_dither_f64 by reflexivity; cbv -[exec_aug conv preemph_spec dither_spec g_draw g_adv length]; rewrite ?conv_same, ?conv_length; repeat split.
+  intros c ip ax d x r Hax. unfold run, via_f64.
+  change dither_prog with (firstn 3 dither_prog ++ [nth 3 dither_prog SWarn] ++ skipn 4 dither_prog).
+  rewrite !exec_list_app, dither_prologue by assumption.
+  cbn [exec_list]. rewrite dither_body by (assumption || apply in_place_f64).
+  rewrite conv_length.
+  apply epilogue; [apply in_place_f64|left; reflexivity].
 Qed.
 
 End AnyOps.
